@@ -142,7 +142,8 @@ def iter_scope(node):
     while stack:
         n = stack.pop()
         yield n
-        if n is not node and (_comp_scopes(n) or isinstance(n, (ast.FunctionDef, ast.AsyncFunctionDef, ast.ClassDef))):
+        if (n is not node and (_comp_scopes(n) or isinstance(n, (ast.FunctionDef, ast.AsyncFunctionDef, ast.ClassDef)))) or \
+                (n is node and isinstance(n, (ast.ListComp, ast.SetComp, ast.DictComp, ast.GeneratorExp))):
             # the first iterable of a comprehension is evaluated in the enclosing scope
             if isinstance(n, (ast.ListComp, ast.SetComp, ast.DictComp, ast.GeneratorExp)):
                 stack.append(n.generators[0].iter)
@@ -418,6 +419,12 @@ class Flow:
                     if isinstance(sub, ast.Name) and isinstance(sub.ctx, ast.Load) and sub.id in self.locals:
                         ds = self.reaching(sub.id, n.id)
                         if any(d.kind in ("unbound", "del") for d in ds):
+                            # (x := f()) and x.attr: the assignment expression in the same expression is evaluated first
+                            # when it stands to the left of the read (left-to-right evaluation of operands)
+                            earlier = [w for w in iter_scope(part) if isinstance(w, ast.NamedExpr) and isinstance(w.target, ast.Name) and w.target.id == sub.id
+                                       and (w.end_lineno, w.end_col_offset) <= (sub.lineno, sub.col_offset)]
+                            if earlier:
+                                continue
                             out.append((sub.id, sub, n.id))
         return out
 
